@@ -19,7 +19,7 @@ def polyPrims (O : Oracle) (tie : PTerm → Bool) (grayAs : Bool) (tac : Nat →
     | .error e => .error e
 
 /-- the real tactic table -/
-def realTac (O : Oracle) (grayKeeps : Bool) (hint : PTerm → TL → Bool → Option (List Nat)) :=
+def realTac (O : Oracle) (grayKeeps : Bool) (hint : PTerm → TL → List Var → Bool → Option (List Nat)) :=
   Elim.tactic O grayKeeps hint
 
 def compose (P : Prims PTerm) (c1 c2 : Contract PTerm) (keep : List Var) (simp : Bool) (ord : List Nat) :=
